@@ -97,6 +97,7 @@ fn main() {
         "bigcap" => {
             let mut out = engine::RunOut::new();
             scale::run_bigcap(args.u64("seed", 0), args.u64("max-n", 100000) as usize, &mut out);
+            if args.u64("shard", 0) == 0 { scale::run_hugecap(&mut out); }
             emit(&args, stats_json(&out).set("cmd", J::s("bigcap")));
         }
         "churn" | "hashscale" | "interleave" | "realheap" => {
